@@ -114,6 +114,9 @@ func badToken(r *hx.RNG, span int) []string {
 	}
 }
 
+// regexes used by genCfg (the keep-alive generator switches to scheme-agnostic ones)
+var cfgRegs = []string{rxA, rxB, "http://example/c[0-9]+"}
+
 func genCfg(r *hx.RNG, span int, nshapes int, malformed bool) []string {
 	var toks []string
 	if r.Chance(1, 3) {
@@ -134,7 +137,7 @@ func genCfg(r *hx.RNG, span int, nshapes int, malformed bool) []string {
 		}
 		toks = append(toks, fmt.Sprintf("D:%d:%d:%d", up, down, lat))
 	}
-	regs := []string{rxA, rxB, "http://example/c[0-9]+"}
+	regs := cfgRegs
 	badAt := -1
 	if malformed {
 		badAt = r.Intn(nshapes)
@@ -281,28 +284,41 @@ func genIntegration(r *hx.RNG) []string {
 	return in
 }
 
-// genKeepAlive: several responses on one keep-alive connection: matching (shape a
-// or b) and non-matching URLs, with and without Range, bodies that end before
-// and after the configured action offsets.
+// genKeepAlive: several exchanges on one client connection of a shaped listener,
+// in one of three modes: plain proxy requests; plain requests followed by a
+// blind CONNECT with transfers through the tunnel; a MITM'd CONNECT tunnel with
+// several requests inside.  Matching (shape a or b) and non-matching URLs, with
+// and without Range, bodies that end before and after the configured actions.
 func genKeepAlive(r *hx.RNG) []string {
 	span := []int{60, 400, 3000, 9000}[r.Intn(4)]
+	saved := cfgRegs
+	cfgRegs = []string{"://example/a.*", "://example/b", "://example/c[0-9]+"}
 	cfg := genCfg(r, span, r.Range(1, 2), false)
+	cfgRegs = saved
 	if r.Chance(1, 2) {
 		// make sure something is still armed after a short first response
 		cfg = append(cfg, fmt.Sprintf("C:%d:%d", span/2+r.Intn(span/2), r.Range(1, 2)), fmt.Sprintf("H:%d:2:%d", span/3+r.Intn(span/3), r.Range(1, 2)))
 	}
+	mode := []string{"plain", "plain", "mitm", "mitm", "connect"}[r.Intn(5)]
 	in := append([]string{"K"}, cfg...)
-	in = append(in, "|")
+	in = append(in, "|", "mode:"+mode)
+	scheme := "http"
+	if mode == "mitm" {
+		scheme = "https"
+	}
 	nreq := r.Range(2, 5)
+	if mode == "connect" {
+		nreq = r.Intn(4)
+	}
 	for k := 0; k < nreq; k++ {
 		var url string
 		switch x := r.Intn(10); {
 		case x < 4:
-			url = fmt.Sprintf("http://example/a%d", r.Intn(100))
+			url = fmt.Sprintf("%s://example/a%d", scheme, r.Intn(100))
 		case x < 6:
-			url = fmt.Sprintf("http://example/b%d", r.Intn(100))
+			url = fmt.Sprintf("%s://example/b%d", scheme, r.Intn(100))
 		default:
-			url = fmt.Sprintf("http://other/zzz%d", r.Intn(100))
+			url = fmt.Sprintf("%s://example/zzz%d", scheme, r.Intn(100))
 		}
 		var ln int
 		if r.Chance(1, 2) {
@@ -315,6 +331,12 @@ func genKeepAlive(r *hx.RNG) []string {
 			rs = r.Intn(ln)
 		}
 		in = append(in, fmt.Sprintf("q:%s:%d:%d:%d", hx.HexS(url), rs, ln, r.Intn(1000000)))
+	}
+	if mode == "connect" {
+		nt := r.Range(1, 3)
+		for k := 0; k < nt; k++ {
+			in = append(in, fmt.Sprintf("t:%d:%d", 1+r.Intn(2*span), r.Intn(1000000)))
+		}
 	}
 	return in
 }
@@ -373,12 +395,18 @@ func generate(cfg *hx.Config, emit func(kind string, in []string)) {
 		emit("int", genIntegration(rng.Fork()))
 	}
 	// 3b. keep-alive connections with several responses
-	nk := 60
+	nk := 90
 	if cfg.Thorough() {
 		nk = 800
 	}
 	for k := 0; k < nk; k++ {
-		emit("ka", genKeepAlive(rng.Fork()))
+		in := genKeepAlive(rng.Fork())
+		for _, t := range in {
+			if strings.HasPrefix(t, "mode:") {
+				cfg.Count("keepalive-" + t)
+			}
+		}
+		emit("ka", in)
 	}
 	// 4. cases that wait for bucket drains (1 s ticker): run 4 at a time
 	var slow [][]string
